@@ -172,6 +172,7 @@ func (x *Exec) jsonUnmarshal(fr *Frame, st *State, args []*Value, resT types.Typ
 	x.boundRefs(junk, x.allocNow())
 	x.store(st, ptr.P, x.iteValueLoose(ok, dec, junk))
 	x.jsonContainerFacts(st, dec)
+	x.jsonContainerFacts(st, junk) // what a failed decode leaves behind was allocated by the decoder as well
 	errV := x.freshValue("json_err", resT, st.guard)
 	x.assume(st, Eq(Eq(errV.Tag, IntLit(0)), ok))
 	return errV
